@@ -22,7 +22,7 @@ func addr(i int) string { return fmt.Sprintf("127.0.0.1:%d", 2001+i) }
 
 type fault struct {
 	at   time.Duration
-	kind string // crash | restart | restart-new-id | restart-moved | partition | heal
+	kind string // crash | restart | restart-new-id | restart-moved | leave | partition | heal
 	a, b int
 }
 
@@ -48,12 +48,14 @@ func (p params) name() string {
 }
 
 type node struct {
-	i       int
-	address string
-	nodeID  string
-	w       *vsys.World
-	running bool
-	gen     int // restarts
+	i             int
+	address       string
+	nodeID        string
+	w             *vsys.World
+	running       bool
+	left          bool // left the cluster gracefully, system still running
+	leaveReturned bool
+	gen           int // restarts
 }
 
 func scenario(p params, bounds []int) *vexp.Scenario {
@@ -69,15 +71,14 @@ func scenario(p params, bounds []int) *vexp.Scenario {
 			nw := vnet.Reset()
 			isolated := map[string]bool{} // crashed nodes: nobody reaches them, they reach nobody
 			cutPairs := map[string]bool{} // partitioned pairs "a|b"
-			dialer := map[int]string{}    // (not needed: refusal is by destination + source unknown) -> see below
-			_ = dialer
-			// refusal needs the source: the harness tags the dialing node through a per-system wrapper below
-			var curDialer string
+			// refusal needs the source of a dial: every thread and timer of a node carries the node's address as its tag (set on
+			// the harness thread before the node is started, inherited from there), so the dialing node is the tag of the running code
 			nw.Refuse = func(to string, idx int) bool {
-				if isolated[to] || isolated[curDialer] {
+				from := vrt.Tag()
+				if isolated[to] || isolated[from] {
 					return true
 				}
-				return cutPairs[curDialer+"|"+to] || cutPairs[to+"|"+curDialer]
+				return cutPairs[from+"|"+to] || cutPairs[to+"|"+from]
 			}
 			var seeds []string
 			switch p.seeds {
@@ -99,6 +100,7 @@ func scenario(p params, bounds []int) *vexp.Scenario {
 				}
 				copts := []vivid.ClusterOption{vivid.WithClusterNodeID(nodeID), vivid.WithClusterName("c18"), vivid.WithClusterSeeds(ss),
 					vivid.WithClusterDiscoveryInterval(time.Second), vivid.WithClusterFailureDetectionTimeout(p.fd), vivid.WithClusterSuspectConfirmDuration(p.confirm)}
+				vrt.SetTag(address)
 				w := vsys.NewWorld(x, vivid.WithActorSystemRemoting(address),
 					vivid.WithActorSystemRemotingOption(vivid.WithActorSystemRemotingReconnect(1, 100*time.Millisecond, 200*time.Millisecond, 2, false), vivid.WithActorSystemRemotingClusterOption(copts...)),
 					vivid.WithActorSystemDefaultAskTimeout(3*time.Second))
@@ -110,10 +112,11 @@ func scenario(p params, bounds []int) *vexp.Scenario {
 				nodes[i] = &node{i: i, address: address, nodeID: nodeID, w: w, running: true, gen: gen}
 				w.Start()
 			}
-			// the dialing node is the one whose thread runs: track it through the HandleEnvelop tap
 			vrt.Tap("actor.(*Context).HandleEnvelop", func(args ...any) {
-				c := args[0].(*actor.Context)
-				curDialer = c.Ref().GetAddress()
+				// every envelope is handled by a thread of the system it belongs to (the tags below rely on it)
+				if c := args[0].(*actor.Context); vrt.Tag() != c.Ref().GetAddress() {
+					x.Fail("harness", "an envelope of %s is handled by a thread tagged %q", c.Ref().GetAddress(), vrt.Tag())
+				}
 			})
 			vrt.Tap("remoting.(*Mailbox).Enqueue", func(args ...any) {})
 			advanceTo := func(t time.Duration) {
@@ -123,6 +126,64 @@ func scenario(p params, bounds []int) *vexp.Scenario {
 				vrt.SetHorizon(int64(t))
 				vrt.AddTimer(int64(t)-vrt.Now(), "advance", func() {})
 				vrt.Quiesce()
+			}
+			// "stays absent": from the moment a node is dead (crashed, left, replaced by a new incarnation) the views of the running
+			// nodes are sampled every 250 ms; once a view has dropped the dead node it must not list it again
+			deadSince := map[string]time.Duration{} // "id@address" -> when it died
+			droppedAt := map[string]time.Duration{} // "observer|id@address" -> first sample without it
+			reported := map[string]bool{}
+			viewOf := func(nd *node) *cluster.ClusterView {
+				c := actor.VerifCtxOf(nd.w.Sys, "/@cluster")
+				if c == nil {
+					return nil
+				}
+				na, ok := actor.VerifActorOf(c).(*cluster.NodeActor)
+				if !ok {
+					return nil
+				}
+				real, _ := cluster.VerifNodeView(na)
+				if real == nil {
+					return nil
+				}
+				return real.Snapshot()
+			}
+			sample := func() {
+				if len(deadSince) == 0 {
+					return
+				}
+				now := time.Duration(vrt.Now())
+				for _, nd := range nodes {
+					if nd == nil || !nd.running {
+						continue
+					}
+					view := viewOf(nd)
+					if view == nil {
+						continue
+					}
+					listed := map[string]bool{}
+					for _, m := range view.Members {
+						listed[m.ID+"@"+m.Address] = true
+					}
+					for d := range deadSince {
+						k := nd.address + "|" + d
+						if !listed[d] {
+							if _, ok := droppedAt[k]; !ok {
+								droppedAt[k] = now
+							}
+						} else if at, ok := droppedAt[k]; ok && !reported[k] {
+							reported[k] = true
+							x.Fail("dead-member-removed", "node %s had dropped %s (dead since %v) from its view at %v but lists it again at %v: it did not stay absent", nd.address, d, deadSince[d], at, now)
+						}
+					}
+				}
+			}
+			advanceSampling := func(t time.Duration) {
+				for len(deadSince) > 0 && time.Duration(vrt.Now())+250*time.Millisecond < t {
+					advanceTo(time.Duration(vrt.Now()) + 250*time.Millisecond)
+					sample()
+				}
+				advanceTo(t)
+				sample()
 			}
 			breakConns := func(pred func(c *vnet.VConn) bool) {
 				for _, c := range nw.Conns {
@@ -152,6 +213,7 @@ func scenario(p params, bounds []int) *vexp.Scenario {
 					case "crash":
 						isolated[addr(f.a)] = true
 						nodes[f.a].running = false
+						deadSince[nodes[f.a].nodeID+"@"+nodes[f.a].address] = f.at
 						breakConns(func(c *vnet.VConn) bool { return true })
 					case "restart", "restart-new-id", "restart-moved":
 						// the old process dies, a new one comes up on the same address (restart-moved: same NodeID on a new address)
@@ -159,6 +221,7 @@ func scenario(p params, bounds []int) *vexp.Scenario {
 						isolated[old.address] = true
 						breakConns(func(c *vnet.VConn) bool { return true })
 						old.running = false
+						vrt.SetTag(old.address)
 						old.w.Sys.Stop(time.Second)
 						id := fmt.Sprintf("node-%d", f.a)
 						if f.kind == "restart-new-id" {
@@ -169,6 +232,25 @@ func scenario(p params, bounds []int) *vexp.Scenario {
 						} else {
 							isolated[old.address] = false
 							start(f.a, id, old.address)
+						}
+						if oldKey := old.nodeID + "@" + old.address; oldKey != nodes[f.a].nodeID+"@"+nodes[f.a].address {
+							deadSince[oldKey] = f.at // the previous incarnation, where it is distinguishable from the new one
+						}
+					case "leave":
+						// graceful leave through the public API; the node's actor system keeps running (and keeps answering the
+						// network): whatever of its cluster machinery survives the leave stays observable by the others
+						nd := nodes[f.a]
+						nd.running = false
+						nd.left = true
+						deadSince[nd.nodeID+"@"+nd.address] = f.at
+						vrt.SetTag(nd.address)
+						if cc := nd.w.Sys.Cluster(); cc != nil {
+							// Leave blocks until the node has announced its departure, which takes (virtual) time when the node is
+							// in the middle of a join attempt: the call runs on its own thread while the harness thread moves time on
+							vrt.Go("leave", func() {
+								cc.Leave()
+								nd.leaveReturned = true
+							})
 						}
 					case "partition":
 						cutPairs[addr(f.a)+"|"+addr(f.b)] = true
@@ -181,7 +263,7 @@ func scenario(p params, bounds []int) *vexp.Scenario {
 			}
 			sort.SliceStable(steps, func(i, j int) bool { return steps[i].at < steps[j].at })
 			for _, s := range steps {
-				advanceTo(s.at)
+				advanceSampling(s.at)
 				s.do()
 			}
 			// healing phase
@@ -208,7 +290,7 @@ func scenario(p params, bounds []int) *vexp.Scenario {
 			if mx := maxOff + horizon; mx > endAt {
 				endAt = mx
 			}
-			advanceTo(endAt)
+			advanceSampling(endAt)
 			// ---------------- oracle at the horizon ----------------
 			type viewSum struct {
 				members string // what the view says about the running nodes
@@ -295,6 +377,11 @@ func scenario(p params, bounds []int) *vexp.Scenario {
 					x.Fail("exactly-one-leader", "at the horizon %d of the running nodes consider themselves leader (views: %v)", leaders, sums)
 				}
 			}
+			for _, nd := range nodes {
+				if nd.left && !nd.leaveReturned {
+					x.Fail("leave-returns", "Leave() on node %s has not returned %v after it was called", nd.address, horizon)
+				}
+			}
 			// stability: nothing announced in the last third of the healing phase
 			quietFrom := int64(endAt - horizon/3)
 			for _, i := range running {
@@ -312,10 +399,11 @@ func scenario(p params, bounds []int) *vexp.Scenario {
 			}
 			x.Outcome(strings.Join(oc, " ; "))
 			x.Logf("%s", strings.Join(oc, " ; "))
+			vrt.SetHorizon(vrt.Now() + int64(time.Minute)) // stopping an isolated node takes (virtual) time: retries, timeouts
 			for _, nd := range nodes {
+				vrt.SetTag(nd.address)
 				nd.w.Sys.Stop(time.Second)
 			}
-			vrt.SetHorizon(vrt.Now() + int64(time.Minute))
 			vrt.Quiesce()
 		},
 	}
@@ -388,6 +476,18 @@ func build(tier string) []*vexp.Scenario {
 			add(params{n: 3, seeds: seeds, offsets: std, fd: 4 * s, faults: []fault{{at, "restart-moved", 2, 0}}}, b0)
 			add(params{n: 3, seeds: seeds, offsets: std, fd: 0, faults: []fault{{at, "restart-moved", 2, 0}, {at + 4*s, "restart-moved", 2, 0}}}, b0)
 		}
+	}
+	// graceful leave while the leaver's actor system keeps running: the node must disappear from every view and stay away (several
+	// failure-detection timeouts are waited out), also when it leaves before it ever managed to join
+	for _, at := range []time.Duration{3 * s, 5 * s, 7500 * ms} {
+		for _, seeds := range []string{"one", "two"} {
+			add(params{n: 2, seeds: seeds, offsets: std[:2], fd: 4 * s, faults: []fault{{at, "leave", 1, 0}}}, b0)
+			add(params{n: 3, seeds: seeds, offsets: std, fd: 4 * s, faults: []fault{{at, "leave", 2, 0}}}, b0)
+			add(params{n: 3, seeds: seeds, offsets: std, fd: 0, faults: []fault{{at, "leave", 2, 0}}}, b0)
+		}
+		add(params{n: 2, seeds: "one", offsets: std[:2], fd: 4 * s, faults: []fault{{at, "leave", 0, 0}}}, b0)
+		add(params{n: 2, seeds: "one", offsets: []time.Duration{10 * s, 0}, fd: 4 * s, faults: []fault{{at, "leave", 1, 0}}}, b0)
+		add(params{n: 3, seeds: "one", offsets: []time.Duration{10 * s, 0, 300 * ms}, fd: 4 * s, faults: []fault{{at, "leave", 1, 0}}}, b0)
 	}
 	// suspicion without removal: SuspectConfirmDuration > 0 and a partition longer than the failure-detection timeout but shorter
 	// than timeout + confirmation; the suspected nodes must be rehabilitated once they are heard again
